@@ -103,6 +103,36 @@ Theorem C18_reported_is_handlers_error : forall (V E : Type) (handler : list (ar
 Proof. exact constructed_reported_is_handlers. Qed.
 Print Assumptions C18_reported_is_handlers_error.
 
+(* (6) "reports an error returned by the handler as function-reported", stated on its own: on a
+   well-shaped call a non-nil error of the handler comes back as Reported — for EVERY error value
+   (E is arbitrary), in particular for a value that itself is a call error flagged not
+   function-reported (an inner call's error passed on by the handler): the flag of the value
+   never replaces the attribution of the outer call. *)
+Theorem C18_handler_error_is_reported : forall (V E : Type) (handler : list (arg V) -> hres V E) d s f args e,
+  new_callable d s = Some f -> d_err d = true ->
+  Forall2 (fun a p => arg_fits a p = true) args (d_ins d) ->
+  h_err (handler args) = Some e ->
+  call handler f args = CErr (Reported e).
+Proof. exact static_handler_error_reported. Qed.
+Print Assumptions C18_handler_error_is_reported.
+
+Theorem C18_handler_error_is_reported_dynamic : forall (V E : Type) (handler : list (arg V) -> hres V E) di s f args e,
+  new_dynamic di s = Some f ->
+  Forall2 (fun a p => arg_fits a p = true) args di ->
+  h_err (handler args) = Some e ->
+  call handler f args = CErr (Reported e).
+Proof. exact dynamic_handler_error_reported. Qed.
+Print Assumptions C18_handler_error_is_reported_dynamic.
+
+Theorem C18_nested_call_error_flag_does_not_leak :
+  forall d s f args (handler : list (arg Z) -> hres Z nested_err) b k,
+  new_callable d s = Some f -> d_err d = true ->
+  Forall2 (fun a p => arg_fits a p = true) args (d_ins d) ->
+  h_err (handler args) = Some (CallErr b k) ->
+  is_function_reported (call handler f args) = Some true.
+Proof. exact nested_error_flag_does_not_leak. Qed.
+Print Assumptions C18_nested_call_error_flag_does_not_leak.
+
 (* ---- non-vacuity: the hypotheses are met by real signatures and calls ---- *)
 Section Examples.
   Open Scope Z_scope.
@@ -130,6 +160,17 @@ Section Examples.
   Proof. split; reflexivity. Qed.
   Example C18_ex_dynamic : new_dynamic [GAny] (mkSig [GAny] [GAny; GErr] false) <> None.
   Proof. discriminate. Qed.
+  (* results after (any, error) are not accepted by the dynamic constructor *)
+  Example C18_ex_dynamic_extra_results :
+    new_dynamic [] (mkSig [] [GAny; GErr; GErr] false) = None
+    /\ new_dynamic [GAny] (mkSig [GAny] [GAny; GErr; GString; GInt64] false) = None.
+  Proof. split; reflexivity. Qed.
+  (* a handler passing on an inner call's not-function-reported error: reported all the same *)
+  Let h_nested : list (arg Z) -> hres Z nested_err := fun _ => mkHres 7 (Some (CallErr false 13)).
+  Example C18_ex_nested_reported :
+    call h_nested f1 args1 = CErr (Reported (CallErr false 13))
+    /\ is_function_reported (call h_nested f1 args1) = Some true.
+  Proof. split; reflexivity. Qed.
 
   (* the three repaired defects, on the model: each handler is rejected ... *)
   Example C18_ex_D35_rejected :
